@@ -804,7 +804,7 @@ def chunkings_at(level, tier, msg):
     elif level == 0:
         chs = ("whole", "bytes") if msg["cls"].endswith(":raw-instruction") else CHUNKINGS
     elif tier == "quick":
-        chs = ("whole", "bytes")
+        chs = ("whole",)
     else:
         chs = CHUNKINGS if level == 1 else ("whole",)
     out, seen = [], set()
@@ -822,8 +822,10 @@ def successors(w, msg, conn_changed, sid, tier, next_level, depth):
 
     Reduced menu: no raw QPACK sweep; quick and the last thorough level use the 'lite' menu.
     Partial-order reduction: if the last message changed nothing but the H3Stream of the
-    stream it was delivered on, a following message on a *different* stream behaves as it
-    does from the parent state (explored one level up) - only same-stream messages follow."""
+    stream it was delivered on (conn_changed == ()), a following message on a *different*
+    stream behaves as it does from the parent state (explored one level up) - only
+    same-stream messages follow; if it only registered a critical stream id, also the
+    targets whose uniqueness check reads that id; conn_changed is True = full menu."""
     if next_level >= depth:
         return []
     if msg["cls"].endswith(":raw-instruction") or msg["target"] == "dgram":
@@ -839,9 +841,31 @@ def successors(w, msg, conn_changed, sid, tier, next_level, depth):
         p = w.peek(m["target"])
         if p is None:
             continue
-        if not conn_changed and p != sid:
+        if conn_changed is not True and p != sid and m["target"] not in conn_changed:
             continue
         out.append(i)
+    return out
+
+
+# connection-level fields whose only readers are the uniqueness checks of the named targets
+ONLY_READ_BY = {
+    "_peer_control_stream_id": ("ctrl", "ctrl2"),
+    "_peer_encoder_stream_id": ("enc", "enc2"),
+    "_peer_decoder_stream_id": ("dec", "dec2"),
+}
+
+
+def dependents(before, after, msg):
+    """True = anything may depend on the change; else the tuple of targets that may."""
+    if msg["qpack"]:
+        return True
+    b = dict(before)
+    out = ()
+    for k, v in after:
+        if b.get(k, "<absent>") != v:
+            if k not in ONLY_READ_BY:
+                return True
+            out += ONLY_READ_BY[k]
     return out
 
 
@@ -867,7 +891,7 @@ def work(item):
             key = core.stable_hash((config, w.canon(),
                                     [lab for lab, _c in history if byl[lab]["qpack"]]
                                     + ([msg["label"]] if msg["qpack"] else [])))
-            conn_changed = proto != "h3" or msg["qpack"] or w.canon()[1] != before
+            conn_changed = True if proto != "h3" else dependents(before, w.canon()[1], msg)
             succ = successors(w, msg, conn_changed, sid, tier, level + 1, depth)
         res.append((idx, chunking, key, outcome, viol, succ))
     return res
